@@ -14,15 +14,17 @@ What each definition mirrors (line numbers of `/repo` HEAD):
 * `close`           — `Connection.close` (:805-810) as called by the task when `read()` is `False` or select reports an error (:1093-1104,1145-1147).
 * `step (.sendTo)`  — `OpenFlowNexus.sendToDPID` (__init__.py:379-392).
 
-`Cfg` selects between the code as first read (`Cfg.head`) and the code with the four proposed repairs (`Cfg.repaired`):
+`Cfg` selects between the code as first read (`Cfg.head`) and the code with the repairs (`Cfg.rv v`: the four committed ones, plus C09-5 iff `v`; `Cfg.repaired = Cfg.rv true`):
   `fixD3`   fixes/D03_nexus_disconnect_stale.diff   `_disconnect(dpid, con)` removes the entry only if it is `con`
   `fixDown` fixes/C09-1_no_down_without_up.diff     ConnectionDown only for a connection that was announced (connect_time set)
   `fixRead` fixes/C09-2_read_stops_after_disconnect.diff   `read()` stops dispatching (returns False) once the connection is disconnected
+  `fixDpid` fixes/C09-5_features_reply_new_dpid.diff   the default features-reply handler unregisters the connection's old datapath id
+            (if the entry is this connection) before it re-registers under a different one
   `fixErr`  fixes/C09-3_hexdump_bytes.diff          `util.hexdump(bytes)` works on Python 3.  Without it the default `handle_ERROR` (:199-206)
             raises while formatting its log line for an error message that carries data (they all do), `read()`'s handler
             raises again while formatting *its* log line (:947-949), the exception leaves `read()` and the task closes the
             connection (:1150-1187).  The model assumes every ofp_error carries data.
-The theorems of Properties/C09.lean are about `Cfg.repaired`; the `…_defect` witnesses are about `Cfg.head`.
+The theorems of Properties/C09.lean are about `Cfg.rv v` for both values of `v`; the `…_defect` witnesses are about `Cfg.head`.
 
 Not modelled: listeners that re-enter (halt an event, disconnect or send from inside a handler), a custom
 OpenFlowConnectionArbiter (the default one always answers `core.openflow`), message types other than the eight of `Msg`,
@@ -35,10 +37,15 @@ structure Cfg where
   fixDown : Bool
   fixRead : Bool
   fixErr : Bool
+  fixDpid : Bool
   deriving DecidableEq, Repr
 
-def Cfg.repaired : Cfg := ⟨true, true, true, true⟩
-def Cfg.head : Cfg := ⟨false, false, false, false⟩
+/-- the code with the four committed repairs; `v` says whether fixes/C09-5_features_reply_new_dpid.diff is applied too -/
+def Cfg.rv (v : Bool) : Cfg := ⟨true, true, true, true, v⟩
+def Cfg.repaired : Cfg := Cfg.rv true
+/-- /repo as it stands while C09-5 is an open finding -/
+def Cfg.current : Cfg := Cfg.rv false
+def Cfg.head : Cfg := ⟨false, false, false, false, false⟩
 
 /-- messages from the switch (the tag `n` of port_status / packet_in is the message's xid, used only to tell messages apart) -/
 inductive Msg where
@@ -111,6 +118,10 @@ def St.setConn (s : St) (c : Nat) (k : Conn) : St :=
 
 def St.setReg (s : St) (k : Option Nat) (v : Option Nat) : St :=
   { s with reg := fun i => if i = k then v else s.reg i }
+
+/-- `nexus._disconnect(k, c)` of the repaired nexus: drop the entry under `k` if it is connection `c` -/
+def St.dropOwn (s : St) (k : Option Nat) (c : Nat) : St :=
+  if s.reg k = some c then s.setReg k none else s
 
 /-- the pair of raises "on the nexus, then on the connection" used by every default handler -/
 def ev2 (kind : EvKind) (c arg : Nat) : List Out :=
@@ -222,7 +233,9 @@ def dispatchUp (cfg : Cfg) (s : St) (c : Nat) (m : Msg) : St × List Out :=
   match m with
   | .hello => let r := sendObj cfg s c OFPT_FEATURES_REQUEST; (r.1, r.2.1)
   | .featuresReply d =>
-    ((s.setConn c { k with dpid := some d }).setReg (some d) (some c), .reg (some d) c :: ev2 .features c 0)
+    -- C09-5: `if con.dpid != msg.datapath_id: con.ofnexus._disconnect(con.dpid, con)`
+    let s0 := if cfg.fixDpid && k.dpid != some d then s.dropOwn k.dpid c else s
+    ((s0.setConn c { k with dpid := some d }).setReg (some d) (some c), .reg (some d) c :: ev2 .features c 0)
   | .statsDesc => (s, ev2 .rawStats c 0 ++ ev2 .switchDesc c 0)
   | .barrierReply x => (s, ev2 .barrierIn c x)
   | .error x _ _ =>
